@@ -176,12 +176,30 @@ impl Scenario for C01 {
                     p.data[..b.len()].copy_from_slice(b);
                 }
             }
+            7 if rng.chance(1, 40) => {
+                // one enormous UTF-16 line dense with 0x0A bytes (U+4E0A / U+0A0A): every internal line cap is crossed at
+                // a byte that looks like a line feed
+                p.scen = "giant-line".into();
+                // the 16 MiB size only in the thorough tier (seconds per plan)
+                let units = if tier == Tier::Thorough && rng.chance(1, 3) { 8_500_000usize } else { *rng.pick(&[40_000usize, 600_000]) };
+                let ch = *rng.pick(&["\u{4E0A}", "\u{0A0A}", "\u{0A61}"]);
+                let mut t = String::from("osu file format v14\n[Metadata]\nTags:");
+                t.push_str(&"a".repeat(rng.below(3)));
+                t.push_str(&ch.repeat(units));
+                t.push_str("\nTitle:t\n");
+                p.data = encode_text(&t, if rng.chance(1, 2) { Enc::Utf16Le } else { Enc::Utf16Be });
+                p.set("decs", 0b0_0000_1000);
+                p.set("noshrink_data", 1);
+            }
             6 if rng.chance(1, 3) => {
                 // pathological repetition: a very long run of one short line kind in front of (or inside) a small file —
                 // recursion per line, quadratic buffers and per-line allocations show up here
                 p.scen = "repetition".into();
                 let n = *rng.pick(&[1_000usize, 20_000, 50_000, 120_000, 400_000]);
                 let unit = *rng.pick(&["\n", " \n", "\r\n", "//\n", "// c\n", "[General]\n", "[HitObjects]\n", "x\n", "\t\n", "osu file format v\n", "1,1,1,1,0\n", "0,0\n"]);
+                // lines that become stored records (objects, control points) stay <= 20 000: beyond that the run time is
+                // spent on legitimate per-object work, not on anything the repetition could reveal
+                let n = if unit.contains(',') { n.min(20_000) } else { n };
                 let mut t = String::with_capacity(n * unit.len() + 200);
                 if rng.chance(1, 3) {
                     t.push_str("osu file format v14\n[General]\nMode: 1\n[HitObjects]\n");
@@ -273,6 +291,7 @@ impl Scenario for C01 {
             "generated+faults" => "family.grammar-generated(+faults)",
             "hostile-geometry" => "family.workload-only.hostile-slider-geometry",
             "repetition" => "family.workload-only.pathological-repetition",
+            "giant-line" => "family.workload-only.giant-utf16-line",
             _ => "family.fault-derived.bundled-map-mutations",
         });
         for f in &plan.faults {
@@ -371,7 +390,7 @@ impl Scenario for C01 {
         Ok(())
     }
     fn nontrivial(&self, plan: &Plan) -> bool {
-        !plan.faults.is_empty() || plan.scen.starts_with("noise") || plan.scen == "hostile-geometry" || plan.scen == "repetition" || (plan.scen == "short-prefix" && plan.data.len() >= 2) || plan.scen == "first-line"
+        !plan.faults.is_empty() || plan.scen.starts_with("noise") || plan.scen == "hostile-geometry" || plan.scen == "repetition" || plan.scen == "giant-line" || (plan.scen == "short-prefix" && plan.data.len() >= 2) || plan.scen == "first-line"
     }
     fn reach_probes(&self) -> Vec<&'static str> {
         vec![
